@@ -21,6 +21,9 @@ pub mod sync {
         pub const fn new() -> Self {
             OnceCell(once_cell::unsync::OnceCell::new())
         }
+        pub const fn with_value(value: T) -> Self {
+            OnceCell(once_cell::unsync::OnceCell::with_value(value))
+        }
         pub fn get(&self) -> Option<&T> {
             self.0.get()
         }
